@@ -93,3 +93,10 @@ package proposal
 //@   ensures propNewAbort == old(propNewAbort) + ite(old(proposal.snapAbort) == 0 - 1 && proposal.Status.Phases.Abort != nil, 1, 0)
 //@   ensures err == nil ==> proposalSnapshotted(proposal)
 //@   ensures err != nil ==> !proposal.tracked
+
+// The proposal identifier is a function of the target and the transaction index.
+//@ uninterp propIDOf(string, int) string
+//@ func NewID(targetID, index) (r)
+//@   trusted
+//@   pure
+//@   ensures r == propIDOf(targetID, index)
